@@ -66,7 +66,7 @@ Section RvStep.
   Hypothesis Hpp : forall p, chg p = false ->
      psendq (pps st' p) = psendq (pps st p) /\ pcancel (pps st' p) = pcancel (pps st p).
   Hypothesis Hlock : forall p, chg p = true ->
-     (forall u, u <> t -> ~ In (ICvWait p) (tcont (thr st u))) /\ ~ In (ICvWait p) r.
+     navail st' p \/ ((forall u, u <> t -> ~ In (ICvWait p) (tcont (thr st u))) /\ ~ In (ICvWait p) r).
   Hypothesis Hnew : wok (navail st') r -> wok (navail st') (new ++ r).
   Hypothesis Hnot : forall p, In (INotify p) pre ->
      forall u r0, u <> t -> tcont (thr st u) = ICvReacq p :: r0 -> twaiting (thr st' u) = false.
@@ -81,11 +81,11 @@ Section RvStep.
     - intro u. destruct (Nat.eq_dec u t) as [->|Hu].
       + rewrite Hc'. apply Hnew. pose proof (rv_pre st R t) as W. rewrite Hc in W. apply wok_app_r in W.
         apply (wok_change (navail st)); auto. intros p Hin Hp. destruct (chg p) eqn:E.
-        * exfalso. exact (proj2 (Hlock p E) Hin).
+        * destruct (Hlock p E) as [X|X]; [exact X|exfalso; exact (proj2 X Hin)].
         * apply navail_same; auto.
       + destruct (Ho u Hu) as [E _]. rewrite E. apply (wok_change (navail st)); [apply (rv_pre st R u)|].
         intros p Hin Hp. destruct (chg p) eqn:Eg.
-        * exfalso. exact (proj1 (Hlock p Eg) u Hu Hin).
+        * destruct (Hlock p Eg) as [X|X]; [exact X|exfalso; exact (proj1 X u Hu Hin)].
         * apply navail_same; auto.
     - intros u p r0 Hh Hw. destruct (Nat.eq_dec u t) as [->|Hu]; [congruence|].
       destruct (Ho u Hu) as [E Ew]. rewrite E in Hh.
@@ -104,18 +104,18 @@ Section RvStep.
 End RvStep.
 
 Lemma rv_eq : forall st st',
-  (forall u, tcont (thr st' u) = tcont (thr st u) /\ twaiting (thr st' u) = twaiting (thr st u)) -> pps st' = pps st ->
-  RvInv st -> RvInv st'.
+  (forall u, tcont (thr st' u) = tcont (thr st u) /\ (twaiting (thr st' u) = true -> twaiting (thr st u) = true)) ->
+  pps st' = pps st -> RvInv st -> RvInv st'.
 Proof.
   intros st st' Hc Hp R.
   assert (N : forall p, navail st' p <-> navail st p) by (intro p; unfold navail; rewrite Hp; tauto).
   constructor.
   - intro u. destruct (Hc u) as [E _]. rewrite E. apply (wok_change (navail st)); [apply (rv_pre st R u)|].
     intros p _ Hn. apply N. exact Hn.
-  - intros u p r0. destruct (Hc u) as [E1 E2]. rewrite E1, E2. intros A B.
-    destruct (rv_wait st R u p r0 A B) as [X|[v X]]; [left; apply N; exact X|]. right. exists v.
+  - intros u p r0. destruct (Hc u) as [E1 E2]. rewrite E1. intros A B.
+    destruct (rv_wait st R u p r0 A (E2 B)) as [X|[v X]]; [left; apply N; exact X|]. right. exists v.
     destruct (Hc v) as [E3 _]. rewrite E3. exact X.
-  - intros u. destruct (Hc u) as [E1 E2]. rewrite E1, E2. apply (rv_hd st R u).
+  - intros u B. destruct (Hc u) as [E1 E2]. rewrite E1. apply (rv_hd st R u). auto.
 Qed.
 
 (** thread [t] replaces its continuation [k] by [k1] (normalisation) *)
@@ -141,4 +141,579 @@ Proof.
   - intros u p r0 A B. rewrite Hw in B. rewrite (Same u B) in A.
     destruct (rv_wait st R u p r0 A B) as [X|X]; [left; apply N; exact X|right; apply Wit; exact X].
   - intros u B. rewrite Hw in B. rewrite (Same u B). apply (rv_hd st R u B).
+Qed.
+
+Ltac rv_nw := let p0 := fresh "p0" in let Hj := fresh "Hj" in
+  intros p0 Hj; cbn in Hj; repeat (destruct Hj as [Hj|Hj]); try discriminate Hj; try contradiction.
+Ltac rv_new := let W := fresh "W" in intro W; apply wok_app_nw; [rv_nw|exact W].
+Ltac rv_ho := let u := fresh "u" in let Hu := fresh "Hu" in
+  intros u Hu; split; [thr_simpl|cbn -[Nat.eqb]; unfold updN, th; cbn -[Nat.eqb];
+   repeat match goal with |- context [Nat.eqb ?a ?b] => destruct (Nat.eqb_spec a b); [congruence|] end; auto].
+Ltac rv_not := let p0 := fresh "p0" in let Hj := fresh "Hj" in
+  intros p0 Hj;
+  first [ cbn in Hj; repeat (destruct Hj as [Hj|Hj]); try discriminate Hj; try contradiction; fail
+        | exfalso; match goal with Hn : forall p, In (INotify p) _ -> False |- _ => exact (Hn _ Hj) end ].
+Ltac rv_pps := intros ? _; cbn; unfold updZ;
+  repeat match goal with |- context [?a =? ?b] => destruct (Z.eqb_spec a b); subst end; cbn; split; reflexivity.
+Ltac rvn st t pre r new :=
+  apply (rv_step st _ t pre r new (fun _ => false));
+  [ assumption | eassumption | thr_simpl | rv_ho | thr_simpl | rv_pps | intros; discriminate | rv_new | rv_not
+  | intros; discriminate ].
+
+Lemma exec_lact_Rv : forall st t hd a r st' ev,
+  RvInv st -> tcont (thr st t) = [hd] ++ r -> (forall p, hd <> INotify p) ->
+  (forall u, u <> t -> nhold (tcont (thr st u)) (lact_mtx a) = O) -> nhold r (lact_mtx a) = O ->
+  twaiting (thr st t) = false ->
+  exec_lact st t a r = (st', ev) -> RvInv st'.
+Proof.
+  intros st t hd a r st' ev R Hc Hhd Hfree Hr Hw H.
+  assert (Lk : forall p, lact_mtx a = MPq p ->
+               (forall u, u <> t -> ~ In (ICvWait p) (tcont (thr st u))) /\ ~ In (ICvWait p) r).
+  { intros p E. rewrite E in *. split.
+    - intros u Hu Hin. apply in_cvwait_nhold in Hin. rewrite (Hfree u Hu) in Hin. lia.
+    - intro Hin. apply in_cvwait_nhold in Hin. lia. }
+  assert (Hn : forall p, In (INotify p) [hd] -> False) by (intros p [E|[]]; eapply Hhd; eauto).
+  destruct a; cbn [exec_lact] in H.
+  - destruct (climb_reserved st bm) as [i|] eqn:Ecl; inversion H; subst; clear H.
+    + apply climb_at_climb in Ecl. destruct Ecl as [k ->]. rvn st t [hd] r [IClimb k; IUnlock MDL UNone].
+    + rvn st t [hd] r [IUnlock MDL UNone].
+  - unfold ghost_handler in H. inversion H; subst; clear H.
+    rvn st t [hd] r [IUnlock MDL (UDels (dl st))].
+  - inversion H; subst; clear H. rvn st t [hd] r [IUnlock (MCh c) (UChReg c)].
+  - destr_all H; repeat match goal with E : climb_start _ _ _ = Some _ |- _ => apply climb_at_climb in E; destruct E as [? ->] end;
+      inversion H; subst; clear H.
+    + rvn st t [hd] r [IClimb x; IUnlock (MCh c) (UChPush c m)].
+    + rvn st t [hd] r [IUnlock (MCh c) (UChPush c m)].
+    + rvn st t [hd] r [IUnlock (MCh c) (UChPush c m)].
+    + rvn st t [hd] r [IUnlock (MCh c) (URet (RBool false))].
+  - inversion H; subst; clear H. rvn st t [hd] r [IUnlock (MCh c) (URet (RBool (negb (copen (chs st c)))))].
+  - destruct (copen (chs st c)); inversion H; subst; clear H.
+    + rvn st t [hd] r [ILock MDL (LPush (wbit (cw (chs st c))) (wbm (cw (chs st c))) (HChan c)); IUnlock (MCh c) (UChClear c)].
+    + rvn st t [hd] r [IUnlock (MCh c) (UChClear c)].
+  - unfold ghost_handler in H. inversion H; subst; clear H.
+    destruct del; rvn st t [hd] r [IUnlock (MCh c) (UFwd c (if copen (chs st c) then cq (chs st c) else []))].
+  - unfold ghost_handler in H. inversion H; subst; clear H.
+    destruct del; [rvn st t [hd] r [IUnlock (MPq p) (UPqFwd p (precvq (pps st p)) (Some (ppanic (pps st p))))]
+                  |rvn st t [hd] r [IUnlock (MPq p) (UPqFwd p (precvq (pps st p)) None)]].
+  - (* LPqSend *)
+    destruct (Lk p eq_refl) as [Lk1 Lk2].
+    destruct (psendq (pps st p)) eqn:Eq; inversion H; subst; clear H.
+    + match goal with |- RvInv ?S' => set (st' := S') end.
+      apply (rv_step st st' t [hd] r [IUnlock (MPq p) UNone; INotify p] (fun p0 => p0 =? p) R Hc).
+      * unfold st'. thr_simpl.
+      * unfold st'. rv_ho.
+      * unfold st'. thr_simpl.
+      * intros p0 E. unfold st'. cbn. unfold updZ. rewrite E. split; reflexivity.
+      * intros p0 E. apply Z.eqb_eq in E. subst p0. right. auto.
+      * rv_new.
+      * rv_not.
+      * intros p0 E _. apply Z.eqb_eq in E. subst p0. right. right; left. reflexivity.
+    + match goal with |- RvInv ?S' => set (st' := S') end.
+      apply (rv_step st st' t [hd] r [IUnlock (MPq p) UNone] (fun p0 => p0 =? p) R Hc).
+      * unfold st'. thr_simpl.
+      * unfold st'. rv_ho.
+      * unfold st'. thr_simpl.
+      * intros p0 E. unfold st'. cbn. unfold updZ. rewrite E. split; reflexivity.
+      * intros p0 E. apply Z.eqb_eq in E. subst p0. right. auto.
+      * rv_new.
+      * rv_not.
+      * intros p0 E [A _]. apply Z.eqb_eq in E. subst p0. congruence.
+  - (* LPqCancelSet *)
+    destruct (Lk p eq_refl) as [Lk1 Lk2]. inversion H; subst; clear H.
+    match goal with |- RvInv ?S' => set (st' := S') end.
+    apply (rv_step st st' t [hd] r [IUnlock (MPq p) UNone; INotify p] (fun p0 => p0 =? p) R Hc).
+    + unfold st'. thr_simpl.
+    + unfold st'. rv_ho.
+    + unfold st'. thr_simpl.
+    + intros p0 E. unfold st'. cbn. unfold updZ. rewrite E. split; reflexivity.
+    + intros p0 E. apply Z.eqb_eq in E. subst p0. right. auto.
+    + rv_new.
+    + rv_not.
+    + intros p0 E _. apply Z.eqb_eq in E. subst p0. right. right; left. reflexivity.
+  - (* LPqRecv *)
+    destruct (Lk p eq_refl) as [Lk1 Lk2].
+    destruct (pcancel (pps st p)) eqn:Ecn; [inversion H; subst; clear H|].
+    { rvn st t [hd] r [IUnlock (MPq p) (URet RNoneV)]. }
+    destruct (psendq (pps st p)) eqn:Eq; inversion H; subst; clear H.
+    + apply (rv_step st _ t [hd] r [ICvWait p; ICvReacq p] (fun _ => false));
+        [ assumption | eassumption | thr_simpl | rv_ho | thr_simpl | rv_pps | intros; discriminate | | | intros; discriminate ].
+      * intro W. cbn [app wok]. split; [split; cbn; assumption|]. split; [eexists; reflexivity|exact W].
+      * rv_not.
+    + match goal with |- RvInv ?S' => set (st' := S') end.
+      apply (rv_step st st' t [hd] r [IUnlock (MPq p) (URet (RVal z))] (fun p0 => p0 =? p) R Hc).
+      * unfold st'. thr_simpl.
+      * unfold st'. rv_ho.
+      * unfold st'. thr_simpl.
+      * intros p0 E. unfold st'. cbn. unfold updZ. rewrite E. split; reflexivity.
+      * intros p0 E. apply Z.eqb_eq in E. subst p0. right. auto.
+      * rv_new.
+      * rv_not.
+      * intros p0 E [A _]. apply Z.eqb_eq in E. subst p0. congruence.
+  - inversion H; subst; clear H.
+    destruct (precvq (pps st p)).
+    + destruct (climb_start st (pw (pps st p)) (Some (HPipe p))) as [i|] eqn:E; cbn [olist app].
+      * apply climb_at_climb in E. destruct E as [k ->].
+        rvn st t [hd] r [IUnlock (MPq p) (URet (RBool (negb (pcancel (pps st p))))); IClimb k].
+      * rvn st t [hd] r [IUnlock (MPq p) (URet (RBool (negb (pcancel (pps st p)))))].
+    + rvn st t [hd] r [IUnlock (MPq p) (URet (RBool (negb (pcancel (pps st p)))))].
+  - inversion H; subst; clear H. rvn st t [hd] r [IUnlock (MPq p) (URet (RBool (pcancel (pps st p))))].
+  - inversion H; subst; clear H. rvn st t [hd] r [IUnlock (MPq p) UNone].
+Qed.
+
+Lemma exec_uact_Rv : forall st t m a r st' ev,
+  RvInv st -> tcont (thr st t) = [IUnlock m a] ++ r -> twaiting (thr st t) = false ->
+  exec_uact st t a r = (st', ev) -> RvInv st'.
+Proof.
+  intros st t m a r st' ev R Hc Hw H.
+  destruct a; cbn [exec_uact] in H; inversion H; subst; clear H.
+  - rvn st t [IUnlock m UNone] r (@nil instr).
+  - rvn st t [IUnlock m (URet v)] r (@nil instr).
+  - rvn st t [IUnlock m (UDels l)] r [IDels l].
+  - rvn st t [IUnlock m (UChReg c)] r (@nil instr).
+  - rvn st t [IUnlock m (UChPush c m0)] r (@nil instr).
+  - rvn st t [IUnlock m (UChClear c)] r (@nil instr).
+  - rvn st t [IUnlock m (UFwd c msgs)] r (@nil instr).
+  - rvn st t [IUnlock m (UPqFwd p msgs term)] r (@nil instr).
+Qed.
+
+Lemma exec_climb_Rv : forall st t k r st' ev,
+  RvInv st -> tcont (thr st t) = [IClimb k] ++ r -> twaiting (thr st t) = false ->
+  exec_climb st t k r = (st', ev) -> RvInv st'.
+Proof.
+  intros st t k r st' ev R Hc Hw H.
+  destruct k; cbn [exec_climb] in H; inversion H; subst; clear H.
+  - destruct (bitmap_join a b (bmbase st bm)) as [x|]; [destruct (slab_get (sl st) x)|];
+      (destruct (leaf st bm a =? 0); [rvn st t [IClimb (KLeaf bm a b who)] r [IClimb (KSum bm a)]|rvn st t [IClimb (KLeaf bm a b who)] r (@nil instr)]).
+  - destruct (summ st bm =? 0); [rvn st t [IClimb (KSum bm a)] r [IClimb (KTop bm)]|rvn st t [IClimb (KSum bm a)] r (@nil instr)].
+  - destruct (top st =? 0); [rvn st t [IClimb (KTop bm)] r [IClimb KCb]|rvn st t [IClimb (KTop bm)] r (@nil instr)].
+  - rvn st t [IClimb KCb] r (@nil instr).
+Qed.
+
+(** ** what normalisation does to a continuation *)
+Definition norm_new (j : instr) : Prop :=
+  (exists h d, In j (hinstrs h d)) \/ (exists l, j = IHandlers l) \/ (exists l, j = IDels l).
+Inductive nrel : list instr -> list instr -> Prop :=
+| nrel_refl : forall k, nrel k k
+| nrel_step : forall i r new k1, main_only i = true -> (forall j, In j new -> norm_new j) ->
+              nrel (new ++ r) k1 -> nrel (i :: r) k1.
+
+Lemma norm_nrel : forall fuel s acc k ev s1 acc1 k1 ev1,
+  norm fuel s acc k ev = (s1, acc1, k1, ev1) -> nrel k k1.
+Proof.
+  induction fuel as [|f IH]; intros s acc k ev s1 acc1 k1 ev1 H; cbn [norm] in H.
+  - inversion H; subst. apply nrel_refl.
+  - destruct k as [|i r]; [inversion H; subst; apply nrel_refl|].
+    destruct i; try (inversion H; subst; apply nrel_refl; fail).
+    + destruct bms; [|inversion H; subst; apply nrel_refl].
+      apply (nrel_step (IBms []) r []); [reflexivity|intros j []|]. eapply IH; exact H.
+    + destruct ls; [|inversion H; subst; apply nrel_refl].
+      apply (nrel_step (ILeaves bm []) r []); [reflexivity|intros j []|]. eapply IH; exact H.
+    + apply (nrel_step IRun r [IHandlers acc]); [reflexivity| |eapply IH; exact H].
+      intros j [<-|[]]. right; left. eexists; reflexivity.
+    + destruct bits as [|b bs].
+      * apply (nrel_step (IHandlers []) r []); [reflexivity|intros j []|]. eapply IH; exact H.
+      * destruct (slab_get s b) as [h|].
+        -- inversion H; subst.
+           apply (nrel_step (IHandlers (b :: bs)) r (hinstrs h false ++ [IHandlers bs])); [reflexivity| |].
+           ++ intros j Hj. apply in_app_or in Hj. destruct Hj as [Hj|[<-|[]]]; [left; eauto|right; left; eexists; reflexivity].
+           ++ rewrite <- app_assoc. apply nrel_refl.
+        -- apply (nrel_step (IHandlers (b :: bs)) r [IHandlers bs]); [reflexivity| |eapply IH; exact H].
+           intros j [<-|[]]. right; left. eexists; reflexivity.
+    + destruct bits as [|b bs].
+      * apply (nrel_step (IDels []) r []); [reflexivity|intros j []|]. eapply IH; exact H.
+      * destruct (wh_del s b) as [[h s']|].
+        -- inversion H; subst.
+           apply (nrel_step (IDels (b :: bs)) r (hinstrs h true ++ [IDels bs])); [reflexivity| |].
+           ++ intros j Hj. apply in_app_or in Hj. destruct Hj as [Hj|[<-|[]]]; [left; eauto|right; right; eexists; reflexivity].
+           ++ rewrite <- app_assoc. apply nrel_refl.
+        -- apply (nrel_step (IDels (b :: bs)) r [IDels bs]); [reflexivity| |eapply IH; exact H].
+           intros j [<-|[]]. right; right. eexists; reflexivity.
+Qed.
+
+Lemma norm_new_cases : forall j, norm_new j ->
+  (exists w d, j = IYieldH (HPlain w) d) \/ (exists m a, j = ILock m a) \/ (exists l, j = IHandlers l) \/ (exists l, j = IDels l).
+Proof.
+  intros j [[h [d Hj]]|[H|H]]; auto.
+  destruct h; cbn in Hj; destruct Hj as [<-|[]]; eauto.
+Qed.
+
+Lemma nrel_wok : forall k k1, nrel k k1 -> forall P, wok P k -> wok P k1.
+Proof.
+  induction 1 as [k|i r new k1 Hm Hn Hr IH]; intros P W; [exact W|]. apply IH.
+  assert (Wr : wok P r) by (destruct i; cbn [wok] in W; try exact W; discriminate Hm).
+  apply wok_app_nw; [|exact Wr]. intros p Hp. apply Hn in Hp. apply norm_new_cases in Hp.
+  destruct Hp as [[? [? E]]|[[? [? E]]|[[? E]|[? E]]]]; discriminate E.
+Qed.
+Lemma nrel_keep : forall k k1, nrel k k1 -> forall j, In j k -> main_only j = false -> In j k1.
+Proof.
+  induction 1 as [k|i r new k1 Hm Hn Hr IH]; intros j Hj Hf; [exact Hj|]. apply IH; auto.
+  destruct Hj as [<-|Hj]; [congruence|]. apply in_or_app. auto.
+Qed.
+Lemma nrel_id : forall k k1, nrel k k1 -> forall i r, k = i :: r -> main_only i = false -> k1 = k.
+Proof.
+  induction 1 as [k|i0 r0 new k1 Hm Hn Hr IH]; intros i r E Hf; [reflexivity|]. inversion E; subst. congruence.
+Qed.
+
+Lemma notify_fold_wait : forall us st,
+  let st' := fold_left (fun s u => upd_th s u (set_twaiting (th s u) false)) us st in
+  (forall u, twaiting (thr st' u) = true -> twaiting (thr st u) = true) /\
+  (forall u, In u us -> twaiting (thr st' u) = false) /\ pps st' = pps st.
+Proof.
+  induction us as [|v us IH]; intro st; cbn zeta; [split; [auto|split; [intros u []|reflexivity]]|].
+  cbn [fold_left]. destruct (IH (upd_th st v (set_twaiting (th st v) false))) as [A [B C]]. cbn zeta in *.
+  split; [|split].
+  - intros u Hu. apply A in Hu. revert Hu. cbn. unfold updN, th. destruct (Nat.eqb_spec u v); subst; cbn; [discriminate|auto].
+  - intros u [->|Hu]; [|apply B; exact Hu].
+    match goal with |- twaiting (thr ?S u) = false => destruct (twaiting (thr S u)) eqn:E; [|reflexivity] end.
+    apply A in E. revert E. cbn. unfold updN, th. rewrite Nat.eqb_refl. cbn. auto.
+  - rewrite C. reflexivity.
+Qed.
+
+Lemma exec_instr_Rv : forall st t i r st' ev,
+  pristine st -> LKInv st -> RvInv st ->
+  tcont (thr st t) = i :: r -> (forall m, wants i m -> owner st m = None) -> twaiting (thr st t) = false ->
+  exec_instr st t i r = (st', ev) -> RvInv st'.
+Proof.
+  intros st t i r st' ev P L R Hc En Hw H.
+  assert (Hc0 : tcont (thr st t) = [i] ++ r) by exact Hc.
+  assert (Free : forall m, wants i m ->
+            (forall u, u <> t -> nhold (tcont (thr st u)) m = O) /\ nhold r m = O).
+  { intros m Wm. pose proof (En m Wm) as O. split.
+    - intros u Hu. destruct (nhold (tcont (thr st u)) m) eqn:N; [reflexivity|].
+      pose proof (lk_own st L u m ltac:(lia)) as O'. congruence.
+    - destruct (nhold r m) eqn:N; [reflexivity|].
+      assert (N' : (0 < nhold (tcont (thr st t)) m)%nat) by (rewrite Hc, nhold_cons; lia).
+      pose proof (lk_own st L t m N') as O'. congruence. }
+  destruct i; cbn [exec_instr] in H.
+  - eapply exec_climb_Rv; eauto.
+  - inversion H; subst; clear H. rvn st t [ITopSwap] r [IBms (flat_map (bms_of_slot st) (bits_of (top st)))].
+  - destruct bms; inversion H; subst; clear H; [exact R|].
+    rvn st t [IBms (z :: bms)] r [ILeaves z (bits_of (summ st z)); IBms bms].
+  - destruct ls; [inversion H; subst; exact R|].
+    destruct (collect (bmbase st bm) z (leaf st bm z)) as [bits ok].
+    match type of H with context [ghost_collect ?S0 bits] =>
+      destruct (ghost_collect_sl bits S0) as [_ [_ [_ [_ [_ [_ [A7 A8]]]]]]]; remember (ghost_collect S0 bits) as s3 eqn:Es3 end.
+    cbn zeta in *. inversion H; subst st' ev; clear H.
+    match goal with |- RvInv ?S' => set (st' := S') end.
+    assert (C1 : tcont (thr st' t) = [ILeaves bm ls] ++ r).
+    { unfold st'. cbn -[Nat.eqb]. unfold updN, th. rewrite A8. cbn -[Nat.eqb]. unfold updN, th. rewrite !Nat.eqb_refl. reflexivity. }
+    assert (C3 : forall u, u <> t -> tcont (thr st' u) = tcont (thr st u) /\ (twaiting (thr st' u) = true -> twaiting (thr st u) = true)).
+    { intros u Hu. unfold st'. cbn -[Nat.eqb]. unfold updN, th. rewrite A8. cbn -[Nat.eqb]. unfold updN, th.
+      destruct (Nat.eqb_spec u t); [congruence|]. split; [reflexivity|auto]. }
+    assert (C4 : twaiting (thr st' t) = false).
+    { unfold st'. cbn -[Nat.eqb]. unfold updN, th. rewrite A8. cbn -[Nat.eqb]. unfold updN, th. rewrite !Nat.eqb_refl. cbn. exact Hw. }
+    apply (rv_step st st' t [ILeaves bm (z :: ls)] r [ILeaves bm ls] (fun _ => false) R Hc0 C1 C3 C4).
+    + intros p _. unfold st'. cbn. rewrite A7. split; reflexivity.
+    + intros; discriminate.
+    + rv_new.
+    + rv_not.
+    + intros; discriminate.
+  - inversion H; subst; exact R.
+  - inversion H; subst; exact R.
+  - inversion H; subst; exact R.
+  - (* lock *)
+    match type of H with context [exec_lact ?S0 t ?aa ?rr] => destruct (exec_lact S0 t aa rr) as [s2 e2] eqn:E; set (s1 := S0) in * end.
+    inversion H; subst; clear H.
+    assert (T : forall u, tcont (thr s1 u) = tcont (thr st u) /\ (twaiting (thr s1 u) = true -> twaiting (thr st u) = true))
+      by (intro u; unfold s1; split; [thr_simpl|cbn -[Nat.eqb]; unfold updN, th; cbn -[Nat.eqb]; destruct (Nat.eqb_spec u t); subst; cbn; auto]).
+    assert (R1 : RvInv s1) by (apply (rv_eq st); auto).
+    assert (Hm : m = lact_mtx a) by (apply (lk_wf st L t (ILock m a)); rewrite Hc; left; reflexivity).
+    destruct (Free m eq_refl) as [F1 F2]. rewrite Hm in F1, F2.
+    apply (exec_lact_Rv s1 t (ILock m a) a r st' e2 R1).
+    + destruct (T t) as [E1 _]. rewrite E1. exact Hc.
+    + intros; discriminate.
+    + intros u Hu. destruct (T u) as [E1 _]. rewrite E1. apply F1; auto.
+    + exact F2.
+    + unfold s1. thr_simpl.
+    + exact E.
+  - (* unlock *)
+    destruct (exec_uact st t a r) as [s1 e1] eqn:E. inversion H; subst; clear H.
+    pose proof (exec_uact_Rv st t m a r s1 e1 R Hc0 Hw E) as R1.
+    apply (rv_eq s1); auto.
+  - (* Condvar::wait: release and start waiting, atomically *)
+    inversion H; subst; clear H.
+    pose proof (rv_pre st R t) as W. rewrite Hc in W. cbn [wok] in W. destruct W as [Na [[r1 Er] Wr]]. subst r.
+    match goal with |- RvInv ?S' => set (st' := S') end.
+    assert (T : forall u, thr st' u = if Nat.eqb u t then set_tcont (set_twaiting (thr st t) true) (ICvReacq p :: r1) else thr st u).
+    { intro u. unfold st'. cbn -[Nat.eqb]. unfold updN, th. cbn -[Nat.eqb]. unfold updN, th.
+      destruct (Nat.eqb_spec u t); subst; [rewrite ?Nat.eqb_refl|]; reflexivity. }
+    assert (N : forall q, navail st' q <-> navail st q) by (intro q; unfold navail; tauto).
+    constructor.
+    + intro u. rewrite T. apply (wok_change (navail st)); [|intros q _ Hq; apply N; exact Hq].
+      destruct (Nat.eqb_spec u t); [subst; exact Wr|apply (rv_pre st R u)].
+    + intros u q r0. rewrite T. destruct (Nat.eqb_spec u t) as [->|Hu].
+      * cbn. intros Eq _. inversion Eq; subst. left. apply N. exact Na.
+      * intros A B. destruct (rv_wait st R u q r0 A B) as [X|[v X]]; [left; apply N; exact X|]. right.
+        exists v. rewrite T. destruct (Nat.eqb_spec v t) as [->|Hv]; [|exact X].
+        cbn. rewrite Hc in X. destruct X as [X|X]; [discriminate X|exact X].
+    + intros u. rewrite T. destruct (Nat.eqb_spec u t) as [->|Hu]; [cbn; eauto|apply (rv_hd st R u)].
+  - (* re-acquire and re-check *)
+    match type of H with context [exec_lact ?S0 t ?aa ?rr] => destruct (exec_lact S0 t aa rr) as [s2 e2] eqn:E; set (s1 := S0) in * end.
+    inversion H; subst; clear H.
+    assert (T : forall u, tcont (thr s1 u) = tcont (thr st u) /\ (twaiting (thr s1 u) = true -> twaiting (thr st u) = true))
+      by (intro u; unfold s1; split; [thr_simpl|cbn -[Nat.eqb]; unfold updN, th; cbn -[Nat.eqb]; destruct (Nat.eqb_spec u t); subst; cbn; auto]).
+    assert (R1 : RvInv s1) by (apply (rv_eq st); auto).
+    destruct (Free (MPq p) eq_refl) as [F1 F2].
+    apply (exec_lact_Rv s1 t (ICvReacq p) (LPqRecv p) r st' e2 R1).
+    + destruct (T t) as [E1 _]. rewrite E1. exact Hc.
+    + intros; discriminate.
+    + intros u Hu. destruct (T u) as [E1 _]. rewrite E1. apply F1; auto.
+    + exact F2.
+    + unfold s1. thr_simpl.
+    + exact E.
+  - (* notify_all *)
+    inversion H; subst st' ev; clear H.
+    match goal with |- RvInv (set_cont (fold_left ?f ?us st) t r) =>
+      destruct (notify_fold_spec us st) as [_ [_ [_ [_ [_ [_ [_ [_ [_ [A10 _]]]]]]]]]];
+      destruct (notify_fold_wait us st) as [B1 [B2 B3]]; set (us0 := us) in *; set (s1 := fold_left f us0 st) in * end.
+    cbn zeta in *.
+    apply (rv_step st (set_cont s1 t r) t [INotify p] r [] (fun _ => false) R Hc0).
+    + thr_simpl.
+    + intros u Hu. split; [cbn; unfold updN, th; destruct (Nat.eqb_spec u t); [congruence|]; apply A10|].
+      cbn. unfold updN, th. destruct (Nat.eqb_spec u t); [congruence|]. apply B1.
+    + cbn. unfold updN, th. rewrite Nat.eqb_refl. cbn. destruct (twaiting (thr s1 t)) eqn:E; [|reflexivity]. apply B1 in E. congruence.
+    + intros q _. cbn. rewrite B3. split; reflexivity.
+    + intros; discriminate.
+    + intro W. exact W.
+    + intros q [Eq|[]] u r0 Hu Hh. inversion Eq; subst q. cbn. unfold updN, th. destruct (Nat.eqb_spec u t); [congruence|].
+      destruct (twaiting (thr st u)) eqn:Ew.
+      * apply B2. unfold us0. apply filter_In. split.
+        -- apply in_seq. destruct P as [_ P]. destruct (le_lt_dec (nthr st) u) as [Hge|Hlt]; [|lia].
+           destruct (P u Hge) as [Pc _]. rewrite Pc in Hh. discriminate.
+        -- unfold th. rewrite Ew, Hh. cbn. apply Z.eqb_refl.
+      * destruct (twaiting (thr s1 u)) eqn:E; [|reflexivity]. apply B1 in E. congruence.
+    + intros; discriminate.
+  - unfold ghost_handler in H. inversion H; subst; clear H.
+    destruct del; [rvn st t [IYieldH h true] r (@nil instr)|rvn st t [IYieldH h false] r (@nil instr)].
+  - inversion H; subst; clear H. rvn st t [IJoin] r (@nil instr).
+  - inversion H; subst; clear H. rvn st t [IIdle] r (@nil instr).
+Qed.
+
+Ltac rvb st t new :=
+  apply (rv_step st _ t (@nil instr) (@nil instr) new (fun _ => false));
+  [ assumption | eassumption | thr_simpl | rv_ho | thr_simpl | rv_pps | intros; discriminate | rv_new | rv_not
+  | intros; discriminate ].
+
+Lemma fill_loop_pps : forall n st ev st' ev', fill_loop n st ev = (st', ev') -> pps st' = pps st /\ thr st' = thr st.
+Proof.
+  induction n as [|n IH]; intros st ev st' ev' H; cbn [fill_loop] in H.
+  - inversion H; subst; auto.
+  - destruct (wh_add st (HPlain (1000000 + nfill st))) as [[st1 wi]|] eqn:E; [|inversion H; subst; auto].
+    destruct (wh_add_core _ _ _ _ E) as [c1 [A [B [C1 [C2 [C3 [C4 [C5 [C6 [C7 C8]]]]]]]]]].
+    apply IH in H. cbn in H. destruct H as [H1 H2]. split; congruence.
+Qed.
+
+Lemma begin_cmd_Rv : forall st t c st' ev done,
+  pristine st -> RvInv st -> tcont (thr st t) = [] -> (t < nthr st)%nat ->
+  begin_cmd st t c = (st', ev, done) -> RvInv st'.
+Proof.
+  intros st t c st' ev done P R Hc Ht H.
+  assert (Hc0 : tcont (thr st t) = [] ++ []) by exact Hc.
+  assert (Hw : twaiting (thr st t) = false).
+  { destruct (twaiting (thr st t)) eqn:E; [|reflexivity]. destruct (rv_hd st R t E) as [p [r0 X]]. congruence. }
+  assert (Sp : forall s1 p f, (forall u, thr s1 u = thr st u) -> nthr s1 = nthr st ->
+                 forall u, tcont (thr (spawn_thread s1 t p f) u) = tcont (thr st u) /\
+                           (twaiting (thr (spawn_thread s1 t p f) u) = true -> twaiting (thr st u) = true)).
+  { intros s1 p f E1 E2 u. cbn. unfold updN, th. destruct (Nat.eqb_spec u (nthr s1)) as [->|]; [|rewrite E1; auto].
+    cbn. split; [|discriminate]. symmetry. destruct P as [_ P]. apply P. lia. }
+  destruct c; cbn [begin_cmd] in H.
+  - destruct (wreg st w) as [wi|]; [|inversion H; subst; auto].
+    destruct (climb_start st wi (Some (HPlain w))) as [i|] eqn:E; inversion H; subst; clear H; [|auto].
+    apply climb_at_climb in E. destruct E as [k ->]. rvb st t [IClimb k].
+  - destruct (wreg st w) as [wi|] eqn:Ew; [|inversion H; subst; auto].
+    destruct (wbusy st w); inversion H; subst; clear H.
+    + rvb st t [ILock MDL (LPush (wbit wi) (wbm wi) (HPlain w))].
+    + apply (rv_eq st); auto.
+  - destruct (Waker.creg (chs st c)); inversion H; subst; clear H; [|auto]. rvb st t [ILock (MCh c) (LChSend c m)].
+  - destruct (Waker.creg (chs st c)); inversion H; subst; clear H; [|auto]. rvb st t [ILock (MCh c) (LChClosed c)].
+  - destruct (negb (is_main t) || wused st w || (1000000 <=? w) || (w <? 0)); [inversion H; subst; auto|].
+    destruct (wh_add st (HPlain w)) as [[st1 wi]|] eqn:E; inversion H; subst; clear H; [|auto].
+    destruct (wh_add_core _ _ _ _ E) as [c1 [A [B [C1 [C2 [C3 [C4 [C5 [C6 [C7 C8]]]]]]]]]].
+    apply (rv_eq st); cbn; auto. intro u. rewrite C1. auto.
+  - destruct (negb (is_main t)); [inversion H; subst; auto|].
+    destruct (fill_loop (Z.to_nat n) st []) as [st1 ev1] eqn:E. inversion H; subst; clear H.
+    destruct (fill_loop_pps _ _ _ _ _ E) as [A B]. apply (rv_eq st); auto. intro u. rewrite B. auto.
+  - destruct (negb (is_main t)); inversion H; subst; clear H; [auto|]. rvb st t [ITopSwap; IRun].
+  - destruct (negb (is_main t)); [inversion H; subst; auto|].
+    destruct (gnotified st); inversion H; subst; clear H; [|auto]. rvb st t [ITopSwap; IRun].
+  - destruct (negb (is_main t)); inversion H; subst; clear H; [auto|].
+    apply (rv_eq st); auto.
+  - destruct (negb (is_main t)); inversion H; subst; clear H; [auto|]. rvb st t [IJoin].
+  - destruct (negb (is_main t)); inversion H; subst; clear H; [auto|]. rvb st t [IIdle].
+  - destruct (negb (is_main t) || cexists (chs st c)) eqn:Eg; [inversion H; subst; auto|].
+    destruct (wh_add st (HChan c)) as [[st1 wi]|] eqn:E; inversion H; subst; clear H; [|auto].
+    destruct (wh_add_core _ _ _ _ E) as [c1 [A [B [C1 [C2 [C3 [C4 [C5 [C6 [C7 C8]]]]]]]]]].
+    assert (R1 : RvInv st1) by (apply (rv_eq st); auto; intro u; rewrite C1; auto).
+    assert (Hc1 : tcont (thr st1 t) = [] ++ []) by (rewrite C1; exact Hc).
+    assert (Hw1 : twaiting (thr st1 t) = false) by (rewrite C1; exact Hw).
+    rvb st1 t [ILock (MCh c) (LChInit c)].
+  - destruct (negb (is_main t) || negb (cguard (chs st c))); inversion H; subst; clear H; [auto|].
+    rvb st t [ILock (MCh c) (LChClose c)].
+  - (* CPNew: the new pipe has nothing to receive and no cancellation *)
+    destruct (negb (is_main t) || pexists (pps st p)); [inversion H; subst; auto|].
+    destruct (wh_add st (HPipe p)) as [[st1 wi]|] eqn:E; inversion H; subst; clear H; [|auto].
+    destruct (wh_add_core _ _ _ _ E) as [c1 [A [B [C1 [C2 [C3 [C4 [C5 [C6 [C7 C8]]]]]]]]]].
+    match goal with |- RvInv ?S' => set (st' := S') end.
+    assert (T : forall u, tcont (thr st' u) = tcont (thr st u) /\ (twaiting (thr st' u) = true -> twaiting (thr st u) = true)).
+    { intro u. unfold st'. apply Sp; [|exact C2]. intro v. cbn. rewrite C1. reflexivity. }
+    apply (rv_step st st' t [] [] [] (fun p0 => p0 =? p) R Hc0).
+    + destruct (T t) as [E1 _]. rewrite E1. exact Hc.
+    + intros u _. apply T.
+    + destruct (twaiting (thr st' t)) eqn:Ew; [|reflexivity]. destruct (T t) as [_ E2]. rewrite (E2 Ew) in Hw. discriminate.
+    + intros p0 E0. unfold st'. cbn. unfold updZ. rewrite E0, C8. split; reflexivity.
+    + intros p0 E0. apply Z.eqb_eq in E0. subst p0. left. unfold st', navail. cbn. unfold updZ. rewrite Z.eqb_refl. cbn. auto.
+    + intro W. exact W.
+    + intros p0 [].
+    + intros p0 E0 _. apply Z.eqb_eq in E0. subst p0. left. unfold st', navail. cbn. unfold updZ. rewrite Z.eqb_refl. cbn. auto.
+  - destruct (negb (is_main t) || negb (phandle (pps st p))); inversion H; subst; clear H; [auto|]. rvb st t [ILock (MPq p) (LPqSend p m)].
+  - destruct (negb (is_main t) || negb (phandle (pps st p))); inversion H; subst; clear H; [auto|]. rvb st t [ILock (MPq p) (LPqCancelSet p)].
+  - destruct (tpipe (th st t) <? 0); inversion H; subst; clear H; [auto|]. rvb st t [ILock (MPq (tpipe (th st t))) (LPqRecv (tpipe (th st t)))].
+  - destruct (tpipe (th st t) <? 0); inversion H; subst; clear H; [auto|]. rvb st t [ILock (MPq (tpipe (th st t))) (LPqLSend (tpipe (th st t)) m)].
+  - destruct (tpipe (th st t) <? 0); inversion H; subst; clear H; [auto|]. rvb st t [ILock (MPq (tpipe (th st t))) (LPqCancelGet (tpipe (th st t)))].
+  - destruct (tpipe (th st t) <? 0); inversion H; subst; clear H; [auto|].
+    apply (rv_eq st); auto. intro u.
+    split; [thr_simpl|cbn -[Nat.eqb]; unfold updN, th; cbn -[Nat.eqb]; destruct (Nat.eqb_spec u t); subst; cbn; auto].
+Qed.
+
+Lemma settle_Rv : forall st t ev done st' ev',
+  CInv (core st) -> RvInv st -> settle st t ev done = (st', ev') -> RvInv st'.
+Proof.
+  intros st t ev done st' ev' I R H. unfold settle in H.
+  destruct (norm (2 * (cont_size (tcont (th st t)) + length (tacc (th st t))) + 2) (sl st) (tacc (th st t)) (tcont (th st t)) ev)
+    as [[[s1 acc1] k1] ev1] eqn:En.
+  cbn zeta in H.
+  set (st1 := set_sl (upd_th st t (set_tacc (set_tcont (th st t) k1) acc1)) s1) in *.
+  assert (R1 : RvInv st1).
+  { pose proof (norm_nrel _ _ _ _ _ _ _ _ _ En) as N.
+    apply (rv_replace st st1 t k1 R); try reflexivity.
+    - unfold st1. thr_simpl.
+    - unfold st1. thr_simpl.
+    - intro u. unfold st1. thr_simpl.
+    - intros Pp. apply (nrel_wok _ _ N).
+    - intros p Hin. apply (nrel_keep _ _ N); auto.
+    - intros p r0 E. eapply (nrel_id _ _ N); [exact E|reflexivity]. }
+  assert (I1f : forall i, In i (tfinal (thr st1 t)) -> okfinal_c (core st) i).
+  { intros i Hi. apply (i_final _ I t). revert Hi. unfold st1. cbn -[Nat.eqb]. unfold updN, th. rewrite Nat.eqb_refl. cbn. auto. }
+  clearbody st1.
+  match type of H with (let '(st2, ev2) := ?E in _) = _ => destruct E as [st2 ev2] eqn:E2 end.
+  assert (R2 : RvInv st2 /\ tfinal (thr st2 t) = tfinal (thr st1 t)).
+  { assert (G : forall s, (forall u, tcont (thr s u) = tcont (thr st1 u) /\ twaiting (thr s u) = twaiting (thr st1 u)) ->
+                          pps s = pps st1 -> RvInv s).
+    { intros s A B. apply (rv_eq st1); auto. intro u. destruct (A u) as [X Y]. split; [exact X|rewrite Y; auto]. }
+    destruct done as [v|].
+    - inversion E2; subst. split; [|thr_simpl]. apply G; [|reflexivity]. intro u. split; thr_simpl.
+    - destruct k1.
+      + destruct (tcur (th st1 t)) as [c|]; inversion E2; subst; [|auto].
+        split; [|destruct c; thr_simpl]. apply G; [|destruct c; reflexivity]. intro u. destruct c; split; thr_simpl.
+      + inversion E2; subst. auto. }
+  destruct R2 as [R2 F2].
+  destruct (tcont (th st2 t)) eqn:Ec; [|inversion H; subst; exact R2].
+  destruct (tscript (th st2 t)); [|inversion H; subst; exact R2].
+  destruct (tcur (th st2 t)); [inversion H; subst; exact R2|].
+  destruct (tfinal (th st2 t)) eqn:Ef; inversion H; subst; [exact R2|].
+  assert (Hc0 : tcont (thr st2 t) = [] ++ []) by exact Ec.
+  assert (Hw : twaiting (thr st2 t) = false).
+  { destruct (twaiting (thr st2 t)) eqn:E; [|reflexivity]. destruct (rv_hd st2 R2 t E) as [p [r0 X]]. unfold th in Ec. congruence. }
+  apply (rv_step st2 _ t (@nil instr) (@nil instr) (i :: l) (fun _ => false));
+    [ assumption | eassumption | | rv_ho | thr_simpl | rv_pps | intros; discriminate | | rv_not | intros; discriminate ].
+  - cbn -[Nat.eqb]. unfold updN, th. rewrite Nat.eqb_refl. cbn. rewrite app_nil_r. reflexivity.
+  - intro W. apply wok_app_nw; [|exact W]. intros p Hin. unfold th in Ef. rewrite <- Ef, F2 in Hin. apply I1f in Hin.
+    exact Hin.
+Qed.
+
+Theorem wstep_Rv : forall st t st' ev,
+  MInv st -> LKInv st -> RvInv st -> wstep st t = (st', ev) -> RvInv st'.
+Proof.
+  intros st t st' ev [I [P Wf]] L R H. unfold wstep in H.
+  destruct (enabled st t) eqn:En; cbn [negb] in H; [|inversion H; subst; exact R].
+  assert (Ht : (t < nthr st)%nat).
+  { unfold enabled in En. apply andb_true_iff in En. destruct En as [En _]. apply Nat.ltb_lt in En. exact En. }
+  assert (It : CInv (core (tick st t))) by (eapply CInv_ceq; [|exact I]; unfold tick; same_core).
+  assert (Pt : pristine (tick st t)) by (unfold tick; prist st t).
+  assert (Lt : LKInv (tick st t)) by (unfold tick; lk_same st).
+  assert (Same : forall s, (forall u, tcont (thr s u) = tcont (thr st u) /\ twaiting (thr s u) = twaiting (thr st u)) ->
+                           pps s = pps st -> RvInv s).
+  { intros s A B. apply (rv_eq st); auto. intro u. destruct (A u) as [X Y]. split; [exact X|rewrite Y; auto]. }
+  assert (Rt : RvInv (tick st t)) by (apply Same; [intro u; unfold tick; split; thr_simpl|reflexivity]).
+  assert (Es' : tstarted (th (tick st t) t) = tstarted (th st t)) by (unfold tick; thr_simpl).
+  assert (Ec' : tcont (th (tick st t) t) = tcont (th st t)) by (unfold tick; thr_simpl).
+  assert (Sc' : tscript (th (tick st t) t) = tscript (th st t)) by (unfold tick; thr_simpl).
+  assert (Wt' : twaiting (thr (tick st t) t) = twaiting (thr st t)) by (unfold tick; thr_simpl).
+  assert (Ow : owner (tick st t) = owner st) by reflexivity.
+  assert (Htt : (t < nthr (tick st t))%nat) by exact Ht.
+  rewrite Es', Ec', Sc' in H.
+  destruct (tstarted (th st t)) eqn:Es; cbn [negb] in H.
+  - destruct (tcont (th st t)) as [|i r] eqn:Ec.
+    + destruct (tscript (th st t)) as [|c0 cs]; [inversion H; subst; exact R|].
+      match type of H with context [begin_cmd ?S0 t ?cc] =>
+        destruct (begin_cmd S0 t cc) as [[st2 ev0] done] eqn:Eb; set (s1 := S0) in * end.
+      assert (I1 : CInv (core s1)) by (eapply CInv_ceq; [|exact It]; unfold s1; same_core).
+      assert (P1 : pristine s1) by (unfold s1; prist (tick st t) t).
+      assert (W1 : wfi s1) by (eapply wfi_eq; [| | |exact Wf]; reflexivity).
+      assert (R1 : RvInv s1) by (apply Same; [intro u; unfold s1, tick; split; thr_simpl|reflexivity]).
+      assert (Hc1 : tcont (thr s1 t) = []).
+      { unfold s1. cbn -[Nat.eqb]. unfold updN, th. rewrite Nat.eqb_refl. cbn. unfold th in Ec. first [exact Ec | rewrite Nat.eqb_refl; cbn; exact Ec]. }
+      assert (Ht1 : (t < nthr s1)%nat) by exact Htt.
+      destruct (begin_cmd_inv s1 t c0 st2 ev0 done I1 P1 W1 Hc1 Ht1 Eb) as [I2 _].
+      eapply settle_Rv; [exact I2| |exact H].
+      exact (begin_cmd_Rv s1 t c0 st2 ev0 done P1 R1 Hc1 Ht1 Eb).
+    + destruct (exec_instr (tick st t) t i r) as [st1 ev1] eqn:Ee.
+      assert (Ec1 : tcont (thr (tick st t) t) = i :: r) by (unfold th in Ec', Ec; first [exact Ec'|rewrite Ec'; exact Ec]).
+      assert (I1 : CInv (core st1)) by (eapply exec_instr_inv; eauto).
+      eapply settle_Rv; [exact I1| |exact H].
+      unfold enabled in En. rewrite Es, Ec in En. cbn [negb] in En. apply andb_true_iff in En. destruct En as [_ En].
+      apply (exec_instr_Rv (tick st t) t i r st1 ev1 Pt Lt Rt Ec1); [| |exact Ee].
+      * intros m Hw. rewrite Ow. destruct i; cbn in Hw; try contradiction; subst; cbn in En.
+        -- destruct (owner st m); [discriminate|reflexivity].
+        -- apply andb_true_iff in En. destruct En as [_ En]. destruct (owner st (MPq p)); [discriminate|reflexivity].
+      * rewrite Wt'. destruct (twaiting (thr st t)) eqn:Ew; [|reflexivity].
+        destruct (rv_hd st R t Ew) as [p [r0 X]]. unfold th in Ec. rewrite Ec in X. inversion X; subst.
+        cbn in En. unfold th in En. rewrite Ew in En. discriminate.
+  - eapply settle_Rv; [| |exact H].
+    + eapply CInv_ceq; [|exact It]. same_core.
+    + apply Same; [intro u; unfold tick; split; thr_simpl|reflexivity].
+Qed.
+
+Lemma Rv_init : forall scr, RvInv (winit scr).
+Proof.
+  intro scr. constructor; cbn.
+  - intro t. exact Logic.I.
+  - intros; discriminate.
+  - intros t E. unfold set_tstarted in E. cbn in E. discriminate.
+Qed.
+
+Lemma wrun_Rv : forall sched st, MInv st -> LKInv st -> RvInv st -> RvInv (fst (wrun st sched)).
+Proof.
+  induction sched as [|t rest IH]; intros st M L R; cbn [wrun]; auto.
+  destruct (wstep st t) as [st1 ev] eqn:E.
+  specialize (IH st1 (wstep_inv _ _ _ _ M E) (wstep_LK _ _ _ _ M L E) (wstep_Rv _ _ _ _ M L R E)).
+  destruct (wrun st1 rest) as [st2 tr]. exact IH.
+Qed.
+
+Theorem reachable_Rv : forall st, reachable st -> RvInv st.
+Proof.
+  intros st [scr [sched ->]]. apply wrun_Rv; [apply MInv_init| |apply Rv_init].
+  exact (reachable_LK (winit scr) (ex_intro _ scr (ex_intro _ [] eq_refl))).
+Qed.
+
+(** A blocked [recv] always wakes for a new message or for cancellation: a worker waiting on the condition
+    variable of pipe [p] (its next operation is the re-acquisition of the mutex, and it has not been notified)
+    has nothing to receive and is not cancelled - unless a [notify] for [p] is about to be executed. *)
+Theorem recv_not_lost : forall st t p r0,
+  reachable st -> tcont (thr st t) = ICvReacq p :: r0 -> twaiting (thr st t) = true ->
+  (forall u, ~ In (INotify p) (tcont (thr st u))) ->
+  psendq (pps st p) = [] /\ pcancel (pps st p) = false.
+Proof.
+  intros st t p r0 R Hc Hw Hn. destruct (rv_wait st (reachable_Rv st R) t p r0 Hc Hw) as [X|[u X]]; [exact X|].
+  exfalso. exact (Hn u X).
+Qed.
+
+(** the decision to wait is taken, and the wait started, atomically with respect to the queue *)
+Theorem recv_wait_decided : forall st t p r0,
+  reachable st -> tcont (thr st t) = ICvWait p :: r0 ->
+  psendq (pps st p) = [] /\ pcancel (pps st p) = false /\ owner st (MPq p) = Some t.
+Proof.
+  intros st t p r0 R Hc. pose proof (rv_pre st (reachable_Rv st R) t) as W. rewrite Hc in W. cbn [wok] in W.
+  destruct W as [[A B] _]. split; [exact A|]. split; [exact B|].
+  apply (lk_own st (reachable_LK st R) t (MPq p)). rewrite Hc, nhold_cons. cbn [holdb]. rewrite mtx_eqb_refl. lia.
 Qed.
